@@ -12,13 +12,6 @@ Definition SInv (s : state) : Prop := SInvL (apps s) (orders s).
 (* the sweep instance: the registered apps are fixed at [ap] *)
 Definition SI (ap : list (Z * params)) (s : state) : Prop := apps s = ap /\ SInvL ap (orders s).
 
-(* reduce the projections of an explicit successor state *)
-Ltac proj_cbn :=
-  cbn [apps assets pairs last_pair orders mmidx pools last_pool deps wds qfs afs led sup owed surplus ge_owed farmed
-       set_apps set_assets set_pairs set_last_pair set_orders set_mmidx set_pools set_last_pool set_deps set_wds
-       set_qfs set_afs set_led set_sup set_owed set_surplus set_ge_owed set_farmed
-       put_dep put_wd mint disable_pool drop_mm disable_depleted set_pair_after mark_status] in *.
-
 Lemma Forall_upd (P : entry -> Prop) k e' st :
   Forall P st -> P e' -> Forall P (upd_order k (fun _ => e') st).
 Proof.
@@ -200,7 +193,7 @@ Proof.
   - intros; assumption.
   - intros; eapply si_mm_tail; eauto.
   - exact si_fill_book.
-  - exact si_mark_status.
+  - intros s0 k o g st HI Hf Hl [-> | ->]; apply si_mark_status; auto.
   - exact si_esc_in.
   - exact si_esc_out.
   - intros; assumption.
